@@ -128,6 +128,52 @@ func DecodeLogRecord(data []byte) *LogRecord {
 	}
 }
 
+// 校验日志记录头部记录的长度信息与数据实际长度是否一致
+// chunk 校验和仅覆盖单个 chunk, 合法 chunk 被错误拼接时需由此发现
+func validLogRecord(data []byte) bool {
+	if len(data) < 4 {
+		return false
+	}
+	idx := 1
+	keySize, n := binary.Varint(data[idx:])
+	if n <= 0 || keySize < 0 || keySize > int64(len(data)) {
+		return false
+	}
+	idx += n
+	valueSize, n := binary.Varint(data[idx:])
+	if n <= 0 || valueSize < 0 || valueSize > int64(len(data)) {
+		return false
+	}
+	idx += n
+	_, n = binary.Uvarint(data[idx:])
+	if n <= 0 {
+		return false
+	}
+	idx += n
+	return int64(idx)+keySize+valueSize == int64(len(data))
+}
+
+// 校验 hint 记录的位置信息是否完整
+func validHintRecord(data []byte) bool {
+	idx := 0
+	for i := 0; i < 4; i++ {
+		_, n := binary.Uvarint(data[idx:])
+		if n <= 0 {
+			return false
+		}
+		idx += n
+	}
+	return true
+}
+
+// 校验 chunk 类型与其在记录中的次序是否相符
+func validChunkOrder(chunkType ChunkType, isFirst bool) bool {
+	if isFirst {
+		return chunkType == Full || chunkType == First
+	}
+	return chunkType == Middle || chunkType == Last
+}
+
 func DecodeLogRecordValue(data []byte) []byte {
 	idx := 1
 	keySize, n := binary.Varint(data[idx:])
